@@ -64,5 +64,10 @@ CHECKS += [
          text="Every projection is compared with the solution of the posterior-mean system (zero vector for frame-less statistics), also after sigma is replaced and T rescaled in place on the same machine; every training iteration is compared with the EM step definition applied to the previous model, the marginal log-likelihood including the covariance terms must not decrease while no floor is active, covariances stay >= floor.",
          note=TRUST),
 ]
+CHECKS += [
+    dict(id="C14", technique="bounded exhaustive enumeration (integer data sets x class partitions x label maps x sample orders x input kinds x pinv) on the real code vs exact scatter matrices and the identities on the library's own output",
+         text="For every full-rank configuration (rank decided exactly in rational arithmetic) WCCN and whitening are fitted; the projection must be lower-triangular with positive diagonal and equal the unique Cholesky factor computed from the exact scatter/covariance of the partition alone (so any dependence on label values or order shows), the transformed training data must have zero mean / identity covariance resp. within-class scatter / K = identity, for numpy, list and every enumerated Dask layout, with and without pinv.",
+         note=TRUST),
+]
 _PENDING = "check not built yet in this round (planned, see DESIGN.md section 10); not claimed until it runs clean"
 NOT_APPLICABLE = [dict(property_id="C%02d" % i, reason=_PENDING) for i in range(1, 21) if "C%02d" % i not in {c["id"] for c in CHECKS}]
